@@ -266,8 +266,10 @@ def _ax_dilation_hw(f, idx, n_ops, o):
     x = f.input([1, h, w, ic])
     wt = f.filt([oc, kh, kw, ic], oc, 0)
     bt = f.bias(wt, oc)
-    pools = [[(3, 3), (6, 6)], [(1, 1), (3, 1), (1, 3)], [(3, 1), (1, 3)], [(6, 3), (3, 6), (3, 3)], [(4, 2), (2, 4), (4, 4)], [(5, 5), (1, 1), (5, 1)],
-             [(2, 3), (3, 2)], [(8, 8), (4, 4), (2, 2), (1, 1)], [(6, 6), (3, 3), (2, 2), (1, 1)], [(7, 2), (7, 1)]]
+    # every pool has users whose software dilation factor (dilation, halved when even) differs in the height only, in the width
+    # only, or not at all while the hardware dilation differs (3 and 6)
+    pools = [[(3, 3), (3, 1), (1, 3), (6, 6)], [(3, 1), (3, 3)], [(1, 3), (3, 3), (1, 1)], [(5, 5), (5, 1), (1, 5)], [(6, 3), (3, 6), (3, 3), (6, 1)],
+             [(4, 2), (2, 4), (4, 4)], [(2, 3), (3, 2), (3, 3)], [(8, 8), (4, 4), (2, 2), (1, 1)], [(6, 6), (3, 3), (6, 2), (3, 1)], [(7, 2), (7, 1), (7, 7)]]
     pool = o.get("dilations") or pools[rng.randrange(len(pools))]
     n = _n(f, n_ops)
     for d in _rot([pool[i % len(pool)] for i in range(max(n, 2))][:max(n, 2)], idx):
